@@ -544,7 +544,11 @@ impl State {
     // ------------------------------------------------------------------------------------------
     fn run_impl(&mut self, case: &J) {
         let toks: Vec<String> = case["toks"].as_array().map(|a| a.iter().map(text_of).collect()).unwrap_or_default();
-        let src = toks.join(" ");
+        // a case of MC_Tokenizer carries the source text itself, a case of MC_TreeBuilder its tokens
+        let src = match case.get("src") {
+            Some(s) if s.is_array() => text_of(s),
+            _ => toks.join(" "),
+        };
         self.count("impl_cases");
         self.distinct("impl", case);
         let built = match guard(|| build_operator_tree::<DefaultNumericTypes>(&src)) {
